@@ -185,6 +185,22 @@ CLAIMED = {
         "is outside the statement, as the property's 'own configuration objects' wording implies.",
    technique="Coq proof (frame/non-interference by induction over schedules) + translator census + TSan run (partial)",
    ref="5 (C14)"),
+ "C19": dict(
+   text="Coq theorems (Properties_C19.v, closed under the global context) about the writer model (Writer.v, "
+        "byte-exact model of __config_write_value/__config_indent/config_write): for every tree the output is exactly the "
+        "in-order rendering of a sequence of pieces (layout, assignment character, semicolon, bracket, comma, name, scalar "
+        "with its own format), proved by induction over the tree; for ANY two configurations sharing the settings - any "
+        "options, tab widths, precisions, default formats - the piece sequences are identical after removing layout and "
+        "semicolons and identifying ':' with '='; each option affects the characters of exactly one kind of piece; a "
+        "group's pieces are one line per member, each starting with the indentation piece of its depth, which renders to "
+        "(depth-1) x tab spaces or depth-1 tabs. Tied to /repo by byte-exact comparison of config_write output on "
+        "generated trees under ~30 option vectors per tree, and a model-free oracle tokenising every variant with the "
+        "documented tokenizer and measuring indentation.",
+   note="The statement is at the level of the writer's pieces; that the scanner splits the written text into exactly "
+        "these pieces is the lexing half of C01. Floats are rendered by an exact printf model (FloatDec.v) validated "
+        "against glibc by this correspondence. Tab widths above 15 are clamped by the setter (C05).",
+   technique="Coq proof (structural decomposition of the serializer, induction over the nested tree) + byte-exact correspondence",
+   ref="5 (C19)"),
 }
 
 REASON_PENDING = "not decided in the committed state of this round: the Coq theorem for this property is not yet in the tree, and a property is never claimed on testing alone (DESIGN.md section 11)"
